@@ -22,12 +22,37 @@
   ignored, lists of any length); `DerivesK g r ty v k` — the same with the derivation cost `k` of
   the grammar's depth-counting mode (`k = v.depth` when `g.e = 0`); `NoEmptyList v`; `keys d`;
   `Closed g r d` — the table's keys are closed under `succs`; `AltsRanked r rank` — the production
-  relation is acyclic.
+  relation is acyclic; `ParentRanked classes rank` — the declared inheritance is acyclic;
+  `ReachPlus g r a b` — a non-empty `succs`-path; `Reach` — its reflexive closure;
+  `ClosedNodes g r` — the registered symbols are closed under `succs`.
 -/
 import GEVerif.Lemmas.Analysis
 
 namespace GEVerif.C05
 open GEVerif GEVerif.Analysis
+
+/-! ### 0. Productions -/
+
+/-- The productions the extraction lists for `a` are exactly the registered classes whose declared
+parent is `a`, `a` abstract ("its direct subtypes among the supplied classes"); whatever the
+registration fuel. -/
+theorem C05_productions_exact (g : GrammarSpec) (a p : Nat) :
+    (∃ prods, (analyse g).altsOf a = some prods ∧ p ∈ prods) ↔
+    (Sym.cls p ∈ (analyse g).reg.allNodes ∧ (g.classes.getD p default).parent = some a ∧
+      (g.classes.getD a default).abstract = true) := by
+  have hinv := regInv_analyse g
+  constructor
+  · rintro ⟨prods, hg, hp⟩
+    obtain ⟨h1, h2, h3⟩ := hinv.sound a prods p hg hp
+    exact ⟨h3, h1, h2⟩
+  · rintro ⟨h1, h2, h3⟩
+    exact hinv.complete p a h1 (by simp) h2 h3
+
+/-- Hence the production relation of an analysed grammar is acyclic as soon as the declared
+inheritance relation is (it always is for Python classes). -/
+theorem C05_productions_acyclic (g : GrammarSpec) {rank : Nat → Nat}
+    (h : ParentRanked g.classes rank) : AltsRanked (analyse g).reg rank :=
+  altsRanked_analyse g h
 
 /-! ### 4. The iteration computes a solution of the equations -/
 
@@ -241,6 +266,27 @@ theorem C05_fixpoint_unique {g : GrammarSpec} {r : Reg} {d d' : DistTable}
       omega
     · omega
 
+/-- Order independence for the analysed grammar: if the loop stopped because nothing changed, ANY
+solution of the equations over the registered symbols — in particular the one a loop visiting the
+symbols in another order would stop on — is the reported table. -/
+theorem C05_analyse_order_independent (g : GrammarSpec) {rank : Nat → Nat}
+    (hrank : ParentRanked g.classes rank)
+    (hst : distStep g (analyse g).reg (analyse g).dist = (analyse g).dist)
+    (hcl : Closed g (analyse g).reg (analyse g).dist)
+    {d' : DistTable} (hfix' : isFixpoint g (analyse g).reg d' = true)
+    (hkeys : ∀ s, s ∈ keys d' ↔ s ∈ (analyse g).reg.allNodes) (s : Sym) :
+    lookupDist d' s = lookupDist (analyse g).dist s := by
+  have hk : keys (analyse g).dist = (analyse g).reg.allNodes := by
+    show keys (distIter g _ _ _) = _
+    rw [keys_distIter]; simp only [keys, List.map_map, Function.comp_def, List.map_id']; rfl
+  have hcl' : Closed g (analyse g).reg d' := by
+    intro x hx y hy
+    rw [hkeys] at hx ⊢
+    rw [← hk] at hx ⊢
+    exact hcl x hx y hy
+  exact C05_fixpoint_unique hfix' (C05_analyse_fixpoint g hst) hcl' hcl
+    (C05_productions_acyclic g hrank) (fun s => by rw [hkeys, hk]) s
+
 /-! ### 5. Recursion = a cycle of the successor graph -/
 
 /-- Whatever the fuel: a symbol reported recursive lies on a cycle of `succs`. -/
@@ -334,17 +380,21 @@ example : ∀ b : Bool,
     Closed (exSpec b) a.reg a.dist ∧ (∀ s ∈ explode (.cls 0), s ∈ a.reg.allNodes) ∧
     a.distOf (.cls 0) < INF := by decide
 
-example : AltsRanked (analyse (exSpec false)).reg exRank := by
-  intro n prods p h hp
-  have hr : (analyse (exSpec false)).reg.alts = [(0, [1, 2, 3, 4, 5])] := by decide
-  rw [hr] at h
-  simp only [getAlts] at h
-  split at h
-  · cases h
-    simp only [List.mem_cons, List.not_mem_nil, or_false] at hp
-    rename_i h0; have : n = 0 := (beq_iff_eq.1 h0).symm
-    rcases hp with rfl | rfl | rfl | rfl | rfl <;> simp [exRank, this]
-  · cases h
+theorem exRanked (b : Bool) : ParentRanked (exSpec b).classes exRank := by
+  intro c p h
+  have hc : c < 7 ∨ 7 ≤ c := by omega
+  rcases hc with hc | hc
+  · have : c = 0 ∨ c = 1 ∨ c = 2 ∨ c = 3 ∨ c = 4 ∨ c = 5 ∨ c = 6 := by omega
+    rcases this with rfl | rfl | rfl | rfl | rfl | rfl | rfl <;> simp [exSpec] at h <;>
+      subst h <;> simp [exRank]
+  · have : (exSpec b).classes.getD c default = default := by
+      rw [List.getD_eq_getElem?_getD, List.getElem?_eq_none (by simpa [exSpec] using hc)]; rfl
+    rw [this] at h; cases h
+
+example : AltsRanked (analyse (exSpec false)).reg exRank :=
+  C05_productions_acyclic _ (exRanked false)
+
+example : (analyse (exSpec false)).altsOf 0 = some [1, 2, 3, 4, 5] := by decide
 
 /-- closure of the registered symbols; `Add`, `Neg`, `Pair`, `U` and `Expr` lie on cycles, `Lit`
 does not; the unreachable class is not kept -/
